@@ -194,6 +194,21 @@ def run_case(case):
             bad += independence_cell(res, [a], g, rng)
         elif kind == 'cell-copy':
             a = mkcell(rng, m, g)
+            state = case.get('state', 'consistent')
+            if state == 'ghosts-given':
+                # constructor form "array including ghost cells": the stored boundary values are the caller's
+                a = pf.CellVariable(m, rng.normal(0, 1, g.full_shape()), a.BCs)
+            elif state == 'value-edited':
+                a.value = a.value * 0.5 + 2.0              # boundary values not yet refreshed
+            elif state == 'bc-edited':
+                a.BCs.left.c = np.asarray(a.BCs.left.c) + 3.0
+            elif state == 'from-solveMatrixPDE':
+                Mbc, bbc = pf.boundaryConditionsTerm(a.BCs)
+                Mt, bt = pf.transientTerm(a, 0.1, 1.0)
+                a2 = pf.solveMatrixPDE(m, Mbc + Mt, bbc + bt)
+                if np.all(np.isfinite(np.asarray(a2._value)[tuple(slice(1, -1) for _ in range(g.nd))])):
+                    a = a2
+            cov['copy_state:' + state] = 1
             s0 = snapshot_cell(a)
             full0 = np.array(a._value, copy=True)
             res = a.copy()
@@ -375,8 +390,10 @@ def plan(tier, seed):
                 cases.append({'kind': 'cell-un', 'cls': cls, 'op': op, 'seed': [seed, 14, ci, i]})
                 cases.append({'kind': 'face-un', 'cls': cls, 'op': op, 'seed': [seed, 14, ci, i + 1]})
                 i += 2
-            cases.append({'kind': 'cell-copy', 'cls': cls, 'op': 'copy', 'seed': [seed, 14, ci, i]})
-            i += 1
+            for state in ('consistent', 'ghosts-given', 'value-edited', 'bc-edited', 'from-solveMatrixPDE'):
+                for _r in range(2):
+                    cases.append({'kind': 'cell-copy', 'cls': cls, 'op': 'copy', 'operand': state, 'state': state, 'seed': [seed, 14, ci, i]})
+                    i += 1
             for n in range(1, 9):
                 for fn in ('funceval', 'celleval'):
                     cases.append({'kind': 'cell-eval', 'cls': cls, 'op': fn, 'nargs': n, 'operand': n, 'seed': [seed, 14, ci, i]})
@@ -400,6 +417,9 @@ def floors(agg, tier):
     for cls in CLASSES:
         if agg['cov'].get('cls:' + cls, 0) < 100:
             out.append('cls:%s < 100' % cls)
+    for st in ('consistent', 'ghosts-given', 'value-edited', 'bc-edited', 'from-solveMatrixPDE'):
+        if agg['cov'].get('copy_state:' + st, 0) < 9:
+            out.append('copy_state:%s < 9' % st)
     if agg['cov'].get('ghost_checks', 0) < 500:
         out.append('ghost_checks < 500')
     return out
